@@ -460,6 +460,7 @@ def concurrent_case(seed: int, via_broker: bool) -> Optional[dict]:
     got: list[list] = [[] for _ in range(n_sub)]
     early = [rng.random() < 0.25 for _ in range(n_sub)]
     done = [False] * n_sub
+    started = [False] * n_sub
 
     async def main() -> None:
         item = PubSubItem()
@@ -475,6 +476,7 @@ def concurrent_case(seed: int, via_broker: bool) -> Optional[dict]:
 
         async def subscriber(i: int) -> None:
             agen = broker.subscribe('k', last=False) if via_broker else item.subscribe(last=False)
+            started[i] = True       # the first step of the iteration below registers the subscription before it suspends
             async for x in agen:
                 got[i].append(x)
                 if early[i] and len(got[i]) >= 1:
@@ -483,9 +485,10 @@ def concurrent_case(seed: int, via_broker: bool) -> Optional[dict]:
             done[i] = True
 
         subs = [asyncio.ensure_future(subscriber(i)) for i in range(n_sub)]
-        # let every subscription start before anything is published
-        for _ in range(4 * n_sub + 4):
+        # let every subscription start before anything is published (under a random schedule a fixed number of yields is not enough)
+        while not all(started):
             await asyncio.sleep(0)
+        await asyncio.sleep(0)
         pubs = [asyncio.ensure_future(publisher(p)) for p in range(n_pub)]
         await asyncio.gather(*pubs)
         if via_broker:
